@@ -472,6 +472,89 @@ def composite_cases(q, seed):
 
 
 # ------------------------------------------------------------------------------------------
+# histories: an answer must depend on the object's current data only (differential oracle, mc/diffhist.py)
+# ------------------------------------------------------------------------------------------
+HIST_OPS = ["q-circle", "q-ideal", "move0", "move1", "rebuild", "index0", "flatten"]
+
+
+def _hist_iso(H, n, which):
+    u = lattice.generic_dir(n, 11 + which, 0)
+    g = H.Point(hyp.klein_to_projective((0.45 if which == 0 else -0.6) * u)).origin_to()
+    return g @ H.Isometry.standard_rotation(0.7 + which, dimension=n) if n >= 2 else g
+
+
+def _hist_queries(H, obj, n, kind):
+    out = []
+    if kind in ("Segment", "Geodesic"):
+        if n == 2:
+            out += [("circle_parameters-%s" % m, (lambda m=m: obj.circle_parameters(degrees=False, model=m))) for m in MODELS]
+        out += [("sphere_parameters-%s" % m, (lambda m=m: obj.sphere_parameters(model=m))) for m in MODELS]
+        out += [("ideal_endpoint_coords-%s" % m, (lambda m=m: obj.ideal_basis_coords(m))) for m in ("klein", "poincare", "projective")]
+    elif kind == "Horosphere":
+        out += [("sphere_parameters-%s" % m, (lambda m=m: obj.sphere_parameters(model=m))) for m in MODELS]
+    elif kind == "Subspace":
+        out += [("sphere_parameters-%s" % m, (lambda m=m: obj.sphere_parameters(model=m))) for m in MODELS]
+        out += [("ideal_basis_coords-klein", lambda: obj.ideal_basis_coords("klein"))]
+    return out
+
+
+def case_history(case):
+    from geometry_tools import hyperbolic as H
+    from mc import diffhist
+    n, kind, data, ops = case["n"], case["kind"], np.array(case["data"], dtype=float), case["ops"]
+    Cls = getattr(H, kind)
+    obj = Cls(data.copy())
+    v, t = [], 1
+    for op in ops:
+        t += 1
+        if op.startswith("q-"):
+            for nm, f in _hist_queries(H, obj, n, kind):
+                if (op == "q-circle") == ("parameters" in nm):
+                    f()
+        elif op in ("move0", "move1"):
+            obj = _hist_iso(H, n, int(op[-1])) @ obj
+        elif op == "rebuild":
+            obj = Cls(obj)
+        elif op == "index0":
+            if len(obj.shape) == 0:
+                return {"v": [], "t": t, "o": "n/a", "nt": False}
+            obj = obj[0]
+        elif op == "flatten":
+            obj = obj.flatten_to_unit()
+    if type(obj) is not Cls:
+        return {"v": [_V("history/type/%s" % kind, "after %r the object is a %s" % (ops, type(obj).__name__))], "t": t}
+    fresh = Cls(np.array(obj.proj_data))
+    for (nm, f), (_, g) in zip(_hist_queries(H, obj, n, kind), _hist_queries(H, fresh, n, kind)):
+        got, want = diffhist.flatten_result(f()), diffhist.flatten_result(g())
+        t += 2
+        if not diffhist.same_result(got, want, nm):
+            v.append(_V("history/%s/%s/after-%s" % (kind, nm.split("-")[0], ops[-1] if ops else "construct"),
+                        "H^%d %s after %r: %s differs from the same query on a fresh object with the same data:\n%r\nfresh\n%r" % (n, kind, ops, nm, got, want)))
+            break
+    return {"v": v, "t": t, "o": "%s|%d|%s|%d" % (kind, n, "-".join(ops), len(v)), "nt": len(ops) > 0}
+
+
+def history_cases(q, seed):
+    depth = 3
+    seqs = [list(s) for d in range(1, depth + 1) for s in itertools.product(HIST_OPS, repeat=d)
+            if any(o.startswith("q-") for o in s[:-1]) and not s[-1].startswith("q-")]
+    for n in (2, 3):
+        P, I = _alphabet(n, True, seed)
+        a, b, c = [_row(x) for x in (P[3], P[6], P[8])]
+        i1, i2, i3 = [_row(x) for x in (I[0], I[2], I[3])]
+        roots = [("Segment", [a, b]), ("Segment", [[a, b], [b, c]]), ("Segment", [a, i1]),
+                 ("Geodesic", [i1, i2]), ("Geodesic", [[i1, i2], [i2, i3]]),
+                 ("Horosphere", [i1, a]), ("Horosphere", [[i1, a], [i2, b]])]
+        if n == 3:
+            roots.append(("Subspace", [i1, i2, i3]))
+        for kind, data in roots:
+            for ops in seqs:
+                if "index0" in ops and np.array(data).ndim < 3:
+                    continue
+                yield {"n": n, "kind": kind, "data": data, "ops": ops}
+
+
+# ------------------------------------------------------------------------------------------
 # enumeration
 # ------------------------------------------------------------------------------------------
 def _alphabet(n, q, seed):
@@ -629,6 +712,11 @@ def run(ctx):
         ctx.product("composite-segments", "checks.c14:case_composite", list(composite_cases(q, seed)), chunk=8,
                     domains={"n": [2, 3] if q else [2, 3, 4], "shapes": [[6], [2, 3], [2, 1, 2], [1]], "pairs": "consecutive blocks of all ordered pairs of 12 lattice points",
                              "oracle": "the single-object answer for each unit (itself decided by the sections above)"})
+    if want("histories"):
+        ctx.product("histories", "checks.c14:case_history", list(history_cases(q, seed)), chunk=32,
+                    domains={"ops": HIST_OPS, "sequences": "all op sequences of length <= 3 that contain a query before the last (non-query) op",
+                             "roots": "Segment / Geodesic / Horosphere single and (2,), Segment with an ideal endpoint, Subspace (n=3); n = 2, 3",
+                             "oracle": "the same query on a fresh object built from the current primary data (mc/diffhist.py)"})
     if want("limits"):
         ctx.product("limits", "checks.c14:case_pair", list(limit_cases(q, seed)), chunk=16,
                     domains={"poincare": "A = 0.5u, B = -0.3u + delta w, delta in {0, 1e-2 .. 1e-5}", "halfspace": "Klein lines through e1 (+ delta u)"})
